@@ -10,7 +10,7 @@ static mut LOG: [Ev; CAP] = [Ev { kind: 0, a: 0, b: 0, ret: 0, n: 0, content: [0
 static LEN: AtomicUsize = AtomicUsize::new(0);
 pub static RECORD: AtomicBool = AtomicBool::new(false);
 /// mmap script: 0 = real kernel; 1 = always MAP_FAILED; 2 = ignore the hint (kernel places it far away);
-/// 3 = fail the first MMAP_ARG calls then behave; 4 = alternate failed / far
+/// 3 = fail the first MMAP_ARG calls then behave; 4 = alternate failed / far; 5 = always answer with a block at address MMAP_ARG
 pub static MMAP_MODE: AtomicI64 = AtomicI64::new(0);
 pub static MMAP_ARG: AtomicI64 = AtomicI64::new(0);
 pub static MMAP_CALLS: AtomicI64 = AtomicI64::new(0);
@@ -48,6 +48,7 @@ pub unsafe extern "C" fn mmap(addr: *mut libc::c_void, len: usize, prot: i32, fl
         2 => raw_mmap(std::ptr::null_mut(), len, prot, flags, fd, off),
         3 if n < arg => libc::MAP_FAILED,
         4 => if n % 2 == 0 { libc::MAP_FAILED } else { raw_mmap(std::ptr::null_mut(), len, prot, flags, fd, off) },
+        5 => raw_mmap(arg as *mut libc::c_void, len, prot, flags | libc::MAP_FIXED_NOREPLACE, fd, off),       // every request is answered with a block at MMAP_ARG, wherever the hint pointed
         _ => raw_mmap(addr, len, prot, flags, fd, off),
     };
     push(Ev { kind: b'M', a: addr as u64, b: len as u64, ret: if r == libc::MAP_FAILED { -1 } else { r as i64 }, n: 0, content: [0; 32], tid: tid() });
